@@ -245,16 +245,25 @@ func c03Run(t *testing.T, sub string, keys []string, maxLen int, qb, tb time.Dur
 func TestVerifC03RelatedSecrets(t *testing.T) {
 	r := vkit.Start(t, "C03", "related-secrets", 120*time.Second, 600*time.Second)
 	defer r.Finish()
-	r.Rule = "first member in {disclosure proof, issuance commitment} about secret s with randomiser r, second member an issuance commitment about f(s) with randomiser f(r) for f in {-x, 2x, 256x, x+1 (control: unrelated responses)}, keys toyA / k1024a (same and different keys), Go objects handed over directly; non-trivial = distinct (first kind, f, keys); oracle: each member verifies on its own and the list verifies under distinct labels (else vacuous), and it is rejected with no labels and with equal labels"
+	r.Rule = "first member in {disclosure proof, issuance commitment} about secret s with randomiser r, second member an issuance commitment about f(s) with randomiser f(r) for f in {-x, 2x, 256x}; and first secret = g times the second (g in {2, 256, 65536, 2^64}), one randomiser, the second member answering the challenge g*c, keys toyA / k1024a (same and different keys), Go objects handed over directly; non-trivial = distinct (first kind, f, keys); oracle: each member verifies on its own and the list verifies under distinct labels (else vacuous), and it is rejected with no labels and with equal labels"
 	vfInstallEnv(t, "C03/related", r.Seed)
 	ctx, nonce := vfContext, vfNonce
+	// scale != 0: the second member holds s/scale... rather: the FIRST secret is scale times the second,
+	// both use one randomiser, and the second member answers the challenge scale*c instead of c - its
+	// secret-key response then equals the first member's; only the comparison of every member's
+	// challenge with the list's challenge stands in the way
 	maps := []struct {
-		name string
-		f    func(x *big.Int) *big.Int
+		name  string
+		f     func(x *big.Int) *big.Int
+		scale int64
 	}{
-		{"-x", func(x *big.Int) *big.Int { return new(big.Int).Neg(x) }},
-		{"2x", func(x *big.Int) *big.Int { return new(big.Int).Lsh(x, 1) }},
-		{"256x", func(x *big.Int) *big.Int { return new(big.Int).Lsh(x, 8) }},
+		{"-x", func(x *big.Int) *big.Int { return new(big.Int).Neg(x) }, 0},
+		{"2x", func(x *big.Int) *big.Int { return new(big.Int).Lsh(x, 1) }, 0},
+		{"256x", func(x *big.Int) *big.Int { return new(big.Int).Lsh(x, 8) }, 0},
+		{"x/2, answering challenge 2c", nil, 2},
+		{"x/256, answering challenge 256c", nil, 256},
+		{"x/65536, answering challenge 65536c", nil, 65536},
+		{"x/2^64, answering challenge 2^64*c", nil, -64},
 	}
 	for _, kp := range [][2]string{{"toyA", "toyA"}, {"toyA", "toyB"}, {"k1024a", "k1024a"}, {"k1024a", "k1024b"}} {
 		for _, first := range []string{"disclosure", "issuance"} {
@@ -264,6 +273,18 @@ func TestVerifC03RelatedSecrets(t *testing.T) {
 				}
 				k0, k1 := vfK(kp[0]), vfK(kp[1])
 				sec := vfTag("c03-rel-secret")
+				var scale *big.Int
+				sec1 := sec
+				if m.scale != 0 {
+					scale = vfInt(m.scale)
+					if m.scale < 0 {
+						scale = vfPow2(uint(-m.scale))
+					}
+					// first member: scale*sec1 ; second member: sec1
+					sec = new(big.Int).Mul(sec1, scale)
+				} else {
+					sec1 = m.f(sec)
+				}
 				rnd, err := common.RandomBigInt(k0.Pk.Params.LmCommit - 9)
 				if err != nil {
 					r.HarnessError("%v", err)
@@ -282,7 +303,7 @@ func TestVerifC03RelatedSecrets(t *testing.T) {
 					r.HarnessError("%v", err)
 					return
 				}
-				b1, err := NewCredentialBuilder(k1.Pk, ctx, m.f(sec), vsNonce2, nil, nil)
+				b1, err := NewCredentialBuilder(k1.Pk, ctx, sec1, vsNonce2, nil, nil)
 				if err != nil {
 					r.HarnessError("%v", err)
 					return
@@ -293,12 +314,20 @@ func TestVerifC03RelatedSecrets(t *testing.T) {
 					if err != nil {
 						panic(err)
 					}
-					c1, err := b1.Commit(map[string]*big.Int{"secretkey": m.f(rnd)})
+					rnd1 := rnd
+					if scale == nil {
+						rnd1 = m.f(rnd)
+					}
+					c1, err := b1.Commit(map[string]*big.Int{"secretkey": rnd1})
 					if err != nil {
 						panic(err)
 					}
 					ch := createChallenge(ctx, nonce, append(c0, c1...), false)
-					list = ProofList{b0.CreateProof(ch), b1.CreateProof(ch)}
+					ch1 := ch
+					if scale != nil {
+						ch1 = new(big.Int).Mul(ch, scale)
+					}
+					list = ProofList{b0.CreateProof(ch), b1.CreateProof(ch1)}
 				})
 				if pan {
 					r.Count("related-secret list not constructible: "+msg, 1)
@@ -315,9 +344,12 @@ func TestVerifC03RelatedSecrets(t *testing.T) {
 					continue
 				}
 				r.Outcome(fmt.Sprintf("first=%s:f=%s:distinct-labels=%v:no-labels=%v:equal-labels=%v", first, m.name, distinct, unlabeled, equal))
-				if !distinct {
+				if !distinct && scale == nil {
 					r.Count("vacuity: related-secret list does not verify under distinct labels", 1)
 					continue
+				}
+				if distinct && scale != nil {
+					r.Violate("C03|member-answering-another-challenge-accepted|related-secrets:"+m.name, desc+": a member whose challenge is a multiple of the list's challenge is accepted", desc)
 				}
 				if unlabeled || equal {
 					r.Violate("C03|different-secrets-accepted-under-one-label|related-secrets:"+m.name, fmt.Sprintf("%s: proofs about s and f(s) accepted as linked (no labels: %v, equal labels: %v)", desc, unlabeled, equal), desc)
